@@ -55,7 +55,7 @@ Act(a) ==
      [] a.a = "PrecommitVote" -> PrecommitVote(a.n, EffQ(a, "PC"))
      [] a.a = "Commit"        -> Commit(a.n, SetOf(a.S))
      [] a.a = "CommitProcess" -> CommitProcess(a.n, EffQ(a, "C"))
-     [] a.a = "AdoptLock"     -> IF QCofJ(a.q) \in OfferedLocks(a.n) /\ (lock[a.n] = None \/ Less(lock[a.n], QCofJ(a.q)))
+     [] a.a = "AdoptLock"     -> IF QCofJ(a.q) \in OfferedLocks(a.n) /\ AdoptOK(lock[a.n], QCofJ(a.q))
                                  THEN AdoptLock(a.n, QCofJ(a.q)) ELSE Refused
      [] a.a = "GossipCommit"  -> IF QCofJ(a.q) \in Gossipable /\ committed[a.n] = None THEN GossipCommit(a.n, QCofJ(a.q)) ELSE Refused
      [] a.a = "Pacemaker"     -> Pacemaker(a.n, a.r)
